@@ -115,7 +115,7 @@ def run(ctx):
     design(ctx, thorough)
     kc.lap(ctx, t0, "design")
     # 2. kernels + argument values + predicted outputs from the spec's generator
-    num = int(os.environ.get("C20_NUM", 900 if thorough else 150))
+    num = int(os.environ.get("C20_NUM", 600 if thorough else 100))
     gen = kc.generate(ctx, "mc/OklKernel_gen.cfg", num)
     kc.lap(ctx, t0, "generated %d kernels" % len(gen))
     kc_argvecs = kc.spec_argvecs()
@@ -123,7 +123,7 @@ def run(ctx):
         raise Broken("argument vectors of the spec and of the renderer differ")
     batches = kc.make_batches(gen, kc_argvecs, per_batch=(60 if thorough else 50), prefix="c20b")
     fan = 8 if thorough else 4
-    # 3. translate with all seven translators (in-process, ASan+UBSan library)
+    # 3. translate with all seven translators (in-process)
     res = kc.translate(ctx, batches, MODES, fanout=fan)
     kc.lap(ctx, t0, "translated")
     stats = collections.Counter()
